@@ -39,6 +39,7 @@ type Config struct {
 	Active  []string  `json:"active,omitempty"` // active known-finding ids
 	NoPanic bool      `json:"nopanic,omitempty"` // reachable Go panics are violations
 	Monitor bool      `json:"monitor,omitempty"` // C19 write/nondeterminism monitor
+	ScalarMergeOnly bool `json:"scalar_merge_only,omitempty"` // do not merge calls returning pointers/slices/structs
 }
 
 type Witness struct {
